@@ -523,6 +523,24 @@ Theorem C10_pdr_model_total_small_sys :
 Proof. exact pdr_model_total_small_sys. Qed.
 Print Assumptions C10_pdr_model_total_small_sys.
 
+(** Completeness for counterexamples within the frame bound, whatever the number of state bits: if a bad state
+    is reachable in at most MAX_FRAMES steps the model answers Fail (or its BMC oracle gives up). *)
+Theorem C10_pdr_model_fail_complete_sys :
+  forall (sy : sys) (W EM : Type) (solve : nat -> query slit -> answer slit (sstate sy) EM) (cmd_fail : nat -> option EM) (n_init : nat)
+         (gen_on : bool) (bmc_result : bmc_answer W EM),
+    fin_class sy = true ->
+    forall (fuel bf k : nat),
+    (forall n q, truthful slit slit_eqb (sstate sy) EM (slit_holds sy) (st_bad0 sy) (st_step0 sy) (st_trans sy) (st_bad sy)
+                          q (solve n q)) ->
+    no_faults slit (sstate sy) W EM solve cmd_fail bmc_result ->
+    bad_reachable_within sy k -> k <= MAX_FRAMES ->
+    pdr_fuel_bound (nstates sy) < fuel -> pdr_block_fuel_bound (nstates sy) < bf ->
+    let run := pdr slit slit_eqb (sstate sy) (scube sy) W EM solve cmd_fail n_init gen_on (has_bads_of sy) bmc_result fuel bf in
+    (exists w st', run = Ok (VFail W w, st') /\ bmc_result = BmcFail W EM w) \/
+    (exists st', run = Ok (VUnknown W, st') /\ bmc_result = BmcOther W EM).
+Proof. exact pdr_model_fail_complete_sys. Qed.
+Print Assumptions C10_pdr_model_fail_complete_sys.
+
 (** The hypotheses are satisfiable for EVERY small system of the class: with the exhaustive-search oracle
     over the listed valuations (truthful: [C10_pdr_enum_oracle_truthful]; it never answers "unknown") and a
     BMC oracle that returns a witness, the model decides the system. *)
